@@ -452,19 +452,22 @@ def _subgraph_feasibility(
 def _stereo_feasibility(
     u: AtomId, v: AtomId, state: _State, params: _Parameters
 ) -> bool:
+    # None (lone pair placeholder) is always mapped onto None
     s1 = [
         stereo.__class__(
-            atoms=tuple([state.mapping[a] for a in stereo.atoms]),
+            atoms=tuple([None if a is None else state.mapping[a]
+                         for a in stereo.atoms]),
             parity=stereo.parity,
         )
         for stereo in params.g1_stereo[u]
-        if all([a in state.mapping for a in stereo.atoms])
+        if all([a is None or a in state.mapping for a in stereo.atoms])
     ]
 
     s2 = [
         stereo
         for stereo in params.g2_stereo[v]
-        if all([a in state.inverted_mapping for a in stereo.atoms])
+        if all([a is None or a in state.inverted_mapping
+                for a in stereo.atoms])
     ]
 
     if len(s2) != len(s1):
@@ -485,14 +488,15 @@ def _stereo_change_feasibility(
         (
             stereo_change,
             stereo.__class__(
-                atoms=tuple([state.mapping[a] for a in stereo.atoms]),
+                atoms=tuple([None if a is None else state.mapping[a]
+                             for a in stereo.atoms]),
                 parity=stereo.parity,
             ),
         )
         for stereo_change, stereo_list in params.g1_stereo_changes[u].items()
         for stereo in stereo_list
         if stereo is not None # type: ignore
-        and all([a in state.mapping for a in stereo.atoms])
+        and all([a is None or a in state.mapping for a in stereo.atoms])
     }
 
     s2 = {
@@ -500,7 +504,8 @@ def _stereo_change_feasibility(
         for stereo_change, stereo_list in params.g2_stereo_changes[v].items()
         for stereo in stereo_list
         if stereo is not None # type: ignore
-        and all([a in state.inverted_mapping for a in stereo.atoms])
+        and all([a is None or a in state.inverted_mapping
+                 for a in stereo.atoms])
     }
 
     if s1 == s2:
